@@ -136,6 +136,60 @@ theorem C20_PositiveInt (v : PyVal) (x : BVal) :
     subst hr
     simpa [cmp, XNum.lt, BVal.toX, Rat.intCast_pos] using hn
 
+/-- on finite numbers the six operators of `_operators1` are the exact order / equality their symbols state
+(an `int` and a `float` are compared by value, never after rounding) -/
+theorem C20_cmp_meaning (op : Op) (a b : Rat) :
+    cmp op (.fin a) (.fin b) = true ↔
+      (match op with
+        | .gt => b < a
+        | .ge => b ≤ a
+        | .lt => a < b
+        | .le => a ≤ b
+        | .eq => a = b
+        | .ne => a ≠ b) :=
+  cmp_fin op a b
+
+/-- `nan` passes `!=` only -/
+theorem C20_cmp_nan (op : Op) (y : XNum) : cmp op .nan y = true ↔ op = .ne := cmp_nan op y
+
+/-- `ClosedUnitInterval(q)` for a float `q`: accepted, unchanged, iff `0 ≤ q ≤ 1` -/
+theorem C20_ClosedUnitInterval_float (q : Rat) (x : BVal) :
+    validateNum .float [(.ge, .fin 0), (.le, .fin 1)] .and (.float (.fin q)) = .ok x ↔
+      x = .f (.fin q) ∧ 0 ≤ q ∧ q ≤ 1 := by
+  rw [validateNum_iff]
+  simp only [asBase, Option.some.injEq, joinSat]
+  constructor
+  · rintro ⟨rfl, hj⟩
+    have h0 := (cmp_fin .ge q 0).mp (hj (.ge, .fin 0) (by simp))
+    have h1 := (cmp_fin .le q 1).mp (hj (.le, .fin 1) (by simp))
+    exact ⟨rfl, h0, h1⟩
+  · rintro ⟨rfl, h0, h1⟩
+    refine ⟨rfl, ?_⟩
+    intro r hr
+    simp only [List.mem_cons, List.not_mem_nil, or_false] at hr
+    rcases hr with rfl | rfl
+    · exact (cmp_fin .ge q 0).mpr h0
+    · exact (cmp_fin .le q 1).mpr h1
+
+/-- `OpenUnitInterval(q)` for a float `q`: accepted, unchanged, iff `0 < q < 1` -/
+theorem C20_OpenUnitInterval_float (q : Rat) (x : BVal) :
+    validateNum .float [(.gt, .fin 0), (.lt, .fin 1)] .and (.float (.fin q)) = .ok x ↔
+      x = .f (.fin q) ∧ 0 < q ∧ q < 1 := by
+  rw [validateNum_iff]
+  simp only [asBase, Option.some.injEq, joinSat]
+  constructor
+  · rintro ⟨rfl, hj⟩
+    have h0 := (cmp_fin .gt q 0).mp (hj (.gt, .fin 0) (by simp))
+    have h1 := (cmp_fin .lt q 1).mp (hj (.lt, .fin 1) (by simp))
+    exact ⟨rfl, h0, h1⟩
+  · rintro ⟨rfl, h0, h1⟩
+    refine ⟨rfl, ?_⟩
+    intro r hr
+    simp only [List.mem_cons, List.not_mem_nil, or_false] at hr
+    rcases hr with rfl | rfl
+    · exact (cmp_fin .gt q 0).mpr h0
+    · exact (cmp_fin .lt q 1).mpr h1
+
 /-! ## restricted strings -/
 
 /-- `T(v)` succeeds iff `v` is a text the pattern matches; the result is the text itself -/
@@ -181,6 +235,10 @@ example : (predefinedRe "NotEmptyStr").accepts [] = false := by decide +kernel
 theorem C20_range_rt (r : Range) (hstep : r.step ≠ 0) : rangeDeser (rangeSer r) = .ok r :=
   rangeDeser_rangeSer r hstep
 
+/-- the hypothesis is satisfiable by empty ranges and negative steps … -/
+example : (⟨5, 0, -2⟩ : Range).step ≠ 0 ∧ (⟨0, 0, 1⟩ : Range).step ≠ 0 := by decide
+/-- … and it is needed: `range(0, 1, 0)` does not exist, its text is rejected like `range()` rejects it -/
+example : rangeDeser (rangeSer ⟨0, 1, 0⟩) = .error .value := by decide +kernel
 example : rangeSer ⟨0, 5, 1⟩ = "range(5)".toList := by decide +kernel
 example : rangeSer ⟨2, 5, 1⟩ = "range(2, 5)".toList := by decide +kernel
 example : rangeSer ⟨5, 0, -2⟩ = "range(5, 0, -2)".toList := by decide +kernel
@@ -206,6 +264,8 @@ theorem C20_range_tie :
 theorem C20_td_rt (t : TD) (h : t.Normalised) : tdDeser (tdStr t) = .ok t :=
   tdDeser_tdStr t h
 
+/-- normalisation is needed: other field values denote a timedelta whose normal form comes back -/
+example : tdDeser (tdStr ⟨0, 86400, 0⟩) = .ok ⟨1, 0, 0⟩ := by decide +kernel
 example : tdStr ⟨-1, 86399, 999999⟩ = "-1 day, 23:59:59.999999".toList := by decide +kernel
 example : tdStr ⟨2, 3661, 0⟩ = "2 days, 1:01:01".toList := by decide +kernel
 example : tdStr ⟨0, 0, 5⟩ = "0:00:00.000005".toList := by decide +kernel
